@@ -1,6 +1,7 @@
 """C14 — case generator: interpreter, non-signature opcodes (also imported by c16.py)."""
 ID = "C14"
 LEVEL = "proof"
+EXTRA_TARGETS = ["Proofs/OpcodeTie.vo"]   # regenerated opcode enum == protocol table
 EXEC = "Run.Exec_C14"
 RULE = ("every implemented opcode on every stack of depth <= arity+1 over a 12-value alphabet (empty, +0/-0, +-1, 127, "
         "+-255, non-minimal 1, 4-byte -0, a 5-byte number, an 80-byte blob): sampled in the quick tier, enumerated up to a cap in "
